@@ -273,6 +273,7 @@ func (h *handler1) handleClientPublish(ctx context.Context, snPublish *snPkts1.P
 		return fmt.Errorf("invalid topic name %q", topic)
 	}
 	if snPublish.QOS == 1 {
+		h.cancelTransaction(h.transactions, msgID)
 		h.transactions.Store(msgID, newClientPublishQOS1Transaction(ctx, h, msgID, snPublish.TopicID))
 	}
 	mqPublish.TopicName = topic
@@ -383,6 +384,7 @@ func (h *handler1) handleBrokerPublish(ctx context.Context, mqPublish *mqPkts.Pu
 		}
 	}
 
+	h.cancelTransaction(h.brokerTransactions, msgID)
 	h.brokerTransactions.Store(msgID, transaction)
 	return transaction.ProceedSN(nextState, snPkt)
 }
@@ -508,6 +510,16 @@ func (h *handler1) mqttReceiveLoop(ctx context.Context) error {
 		if err := h.handleMqtt(ctx, pkt); err != nil {
 			return err
 		}
+	}
+}
+
+// cancelTransaction cancels a pending transaction with the given MsgID, if any.
+// A retransmitted packet starts a fresh transaction. The superseded one must
+// not stay alive: its timers would go on and it would delete the new
+// transaction from the store when it finishes.
+func (h *handler1) cancelTransaction(store *transactions.TransactionStore, msgID uint16) {
+	if oldTransaction, ok := store.Get(msgID); ok {
+		oldTransaction.Fail(Cancelled)
 	}
 }
 
@@ -677,6 +689,7 @@ func (h *handler1) handleSubscribe(ctx context.Context, snSubscribe *snPkts1.Sub
 	}
 
 	msgID := snSubscribe.MessageID()
+	h.cancelTransaction(h.transactions, msgID)
 	transaction := newSubscribeTransaction(ctx, h, msgID, topicID)
 	h.transactions.Store(msgID, transaction)
 
